@@ -42,7 +42,7 @@ let eval inp obs =
   let groups = split_on ";" inp in
   let header, ops = (match groups with hd :: tl -> hd, tl | [] -> failwith "empty") in
   let avail = (match header with
-    | ["mdb"; a; _] -> List.filter_map (fun s -> if s = "" || s = "~" then None else Some (str_of_raw s))
+    | "mdb" :: a :: _ -> List.filter_map (fun s -> if s = "" || s = "~" then None else Some (str_of_raw s))
                          (String.split_on_char ',' a)
     | _ -> failwith "bad header") in
   (* oracle *)
@@ -123,6 +123,9 @@ let eval inp obs =
        | t :: trest ->
          let f = String.split_on_char ':' t in
          (match o, f with
+          | "NEW" :: _, "new" :: "ok" :: "nodefault" :: _ ->
+            fail "NewProducer accepted a routing table without a default route (RouteOf would not terminate)";
+            walk orest trest
           | "NEW" :: es, "new" :: "ok" :: det :: _ ->
             if det <> "1" then fail ("RouteOf differs between constructions of the same routing table: " ^ t);
             let s = List.sort compare es in
